@@ -198,13 +198,25 @@ func cmdCheck(args []string) int {
 			return fail(j.res.Key + ": " + j.res.Err)
 		}
 	}
-	// vacuity guards
-	for i, j := range jobs {
-		if len(j.res.Ctx.asserts) == 0 {
-			continue
+	// vacuity guards: preconditions + axioms of each function must not be contradictory
+	{
+		var wgv sync.WaitGroup
+		vac := make([]string, len(jobs))
+		for i, j := range jobs {
+			if len(j.res.Ctx.asserts) == 0 {
+				continue
+			}
+			wgv.Add(1)
+			go func(i int, j *job) {
+				defer wgv.Done()
+				vac[i] = j.res.Ctx.checkSat(j.res.PrePos, "", dir, fmt.Sprintf("pre%d", i), 4)
+			}(i, j)
 		}
-		if st := j.res.Ctx.checkSat(j.res.PrePos, "", dir, fmt.Sprintf("pre%d", i), 20); st == "unsat" {
-			return fail(j.res.Key + ": preconditions/axioms are unsatisfiable (vacuous contract)")
+		wgv.Wait()
+		for i, j := range jobs {
+			if vac[i] == "unsat" {
+				return fail(j.res.Key + ": preconditions/axioms are unsatisfiable (vacuous contract)")
+			}
 		}
 	}
 	// discharge
